@@ -341,6 +341,10 @@ impl Cartesian<'_> {
             return Err("Stopped".into());
         }
 
+        if !self.include_linear_interpolation {
+            // Interpolated poses were only needed for the checks above
+            trace.retain(|step| !step.flags.contains(PathFlags::LIN_INTERP));
+        }
         Ok(trace)
     }
 
